@@ -70,6 +70,8 @@ def pos_table(run, model, rule="C05.pos-table", rule_po="C05.posonly"):
         run.violation(rule, factory.qual, "the two wrappers do not hand the same positional name table to the resolver: %s" % dict((k, show(strip_sites(v)) if v else None) for k, v in names_terms.items()), factory.loc())
         return
     table = nt.pop()
+    if table[0] == "comp" or (table[0] == "call" and table[2] and table[2][0][0] == "comp"):
+        raise AnalysisError("%s: the positional name table is built by a comprehension (%s); the rule reads tables filled by a loop over the signature's parameters and cannot decide this form" % (factory.qual, show(strip_sites(table), 60)))
     if not (table[0] == "display" and table[1] == "list" and not table[2]):
         # e.g. list(sign.parameters.keys())
         run.violation(rule, factory.qual, "the table that maps the position of a call argument to a parameter name is %s: it contains keyword-only parameters (and **kwargs), so surplus positional arguments captured by *args are bound to them" % show(strip_sites(table), 80), factory.loc(), None, show(strip_sites(table), 80))
@@ -250,7 +252,9 @@ def order_identity(run, model, rule_order="C05.order", rule_id="C05.identity"):
 
 
 def defaults_rule(run, model, rule="C05.defaults"):
-    fi = model.func("_checkers.resolve_kwdefaults")
+    from ..decomp import loops_view
+
+    fi = loops_view(model, model.func("_checkers.resolve_kwdefaults"))
     flow = get_flow(model, fi)
     run.saw(flow)
     heads = [n for n in flow.cfg.nodes if n.kind == "next"]
